@@ -193,3 +193,31 @@ package keygen
 //@   ensures result1 == nil ==> result0 != nil
 //@   ensures typeis(result0, *round.Abort) ==> result0.(*round.Abort).Err != nil
 //@   ensures typeis(result0, *round.Output) ==> result0.(*round.Output).Result != nil
+
+// ---- content templates (C05): the handler asks every round for the value it decodes into; with the round's state
+// invariant this never panics, and a broadcast round always returns a template (refinement of round.BroadcastRound)
+//@ func (*round3S).MessageContent
+//@   nopanic[C05]
+//@   requires r != nil && d2sok(r.round2S)
+//@   modifies nothing
+//@   allocates
+//@ func (*round3R).MessageContent
+//@   nopanic[C05]
+//@   requires r != nil && d2rok(r.round2R)
+//@   modifies nothing
+//@   allocates
+//@ func (*round1S).MessageContent
+//@   nopanic[C05]
+//@   requires d1sok(r)
+//@   modifies nothing
+//@   allocates
+//@ func (*round2S).MessageContent
+//@   nopanic[C05]
+//@   requires d2sok(r)
+//@   modifies nothing
+//@   allocates
+//@ func (*round2R).MessageContent
+//@   nopanic[C05]
+//@   requires d2rok(r)
+//@   modifies nothing
+//@   allocates
